@@ -250,8 +250,13 @@ class StandardQTomography(QTomography):
             tmp_prob_dists = (
                 self.calc_matA() @ qope.to_stacked_vector() + self.calc_vecB()
             )
-        prob_dists = tmp_prob_dists.reshape((self.num_schedules, -1))
-        prob_dists = matrix_util.truncate_and_normalize(prob_dists)
+        # one distribution per schedule; the schedules may have different numbers of outcomes
+        sizes = [self.num_outcomes(j) for j in range(self.num_schedules)]
+        rows = np.split(tmp_prob_dists, np.cumsum(sizes)[:-1])
+        prob_dists = [matrix_util.truncate_and_normalize(row) for row in rows]
+        if len(set(sizes)) == 1:
+            # equal numbers of outcomes: the same 2-D array as before
+            prob_dists = np.array(prob_dists)
 
         return prob_dists
 
